@@ -71,6 +71,20 @@ func randScenario(rng *rand.Rand, canary string, hostile bool) *cbScenario {
 			sc.S.ACS = str("acs", 4) // arbitrary string, not even a URL
 		}
 	}
+	// a consumer URL whose own query already has a parameter named like one of the protocol's makes every redirect
+	// reply ambiguous for the receiver, whatever the IdP does: such registrations are outside what is judged
+	if i := strings.IndexByte(sc.S.ACS, '?'); i >= 0 {
+		for _, kv := range strings.FieldsFunc(sc.S.ACS[i+1:], func(r rune) bool { return r == '&' || r == ';' }) {
+			k, _, _ := strings.Cut(kv, "=")
+			if dk, err := url.QueryUnescape(k); err == nil {
+				k = dk
+			}
+			switch k {
+			case "SAMLResponse", "SAMLRequest", "RelayState", "SigAlg", "Signature", "SAMLEncoding":
+				sc.S.ACS = sc.S.ACS[:i]
+			}
+		}
+	}
 	sc.Done = true
 	sc.Opts.TimeFormat = timeLayouts[rng.Intn(len(timeLayouts))]
 	sc.Opts.SigAlg = []string{spsim.AlgRSASHA1, spsim.AlgRSASHA256}[rng.Intn(2)]
